@@ -495,6 +495,15 @@ def _translate_wavelet(ctx):
         ctx.problem('proof', 'gen_wavelet', None, 'regenerated obligation gen_coef_len_ok / gen_sizes_example (band sizes of WaveletOp.__init__ == model) no longer proves: ' + (se or so)[-600:])
 
 
+def gen_slice_batch(rng, tier):
+    """SliceProjectionOp on volumes with two batch dimensions (the adjoint has to put them back in the order they came in)"""
+    out = []
+    for k, vb in enumerate(([2, 3], [3, 2]) if tier == 'quick' else ([2, 3], [3, 2], [2, 2], [1, 3], [2, 1, 2])):
+        out.append({'cls': 'SliceProjectionOp', 'n': [4, 4, 4], 'rot': ['id', 'quat'][k % 2], 'quat': [1, -2, 0, 2], 'shift': [0.0, -0.5][k % 2],
+                    'width': 2.0, 'complex': bool(k % 2), 'vol_batch': vb})
+    return out
+
+
 FAMILIES = [
     Family('fourier_op_adjoint', gen_fourier_ops, impl_fourier_op, None, '', None, oracle_fourier_op,
            descr=lambda c: {'cls': 'FourierOp', 'kind': c['kind']}, theorem='(implementation-level identity G = F^H; FFT path modelled under C03)'),
@@ -507,6 +516,8 @@ FAMILIES = [
            theorem='(implementation-level identity G = F^H)'),
     Family('dense_adjoint', _gen_cls(['FastFourierOp', 'PCACompressionOp', 'GridSamplingOp', 'SliceProjectionOp'], 32, 600),
            impl_dense, None, '', None, oracle_adjoint, descr=descr, theorem='(implementation-level identity G = F^H)'),
+    Family('slice_volume_batch_dims', gen_slice_batch, impl_dense, None, '', None, oracle_adjoint, descr=descr,
+           theorem='(implementation-level identity G = F^H)'),
     Family('wavelet_adjoint', gen_wavelets, impl_dense, None, '', None, oracle_adjoint, descr=descr,
            theorem='(implementation-level identity G = F^H)'),
     Family('wavelet_filter_bank', gen_filter_bank, impl_filter_bank, coq_filter_bank,
